@@ -134,8 +134,16 @@ func c04Decoders(raw []byte) *hx.Failure {
 		return hx.Failf("pts-decoders-disagree", "on %x: gots.ExtractTime=%d pes.ExtractTime=%d reference=%d", raw[:5], a, b, w)
 	}
 	base, ext := ref.DecodePCR(raw[:6])
-	if got := gots.ExtractPCR(raw[:6]); got != base*300+uint64(ext) {
+	got := gots.ExtractPCR(raw[:6])
+	if ext <= 299 && got != base*300+uint64(ext) {
 		return hx.Failf("pcr-decode", "ExtractPCR(%x)=%d, reference base*300+ext=%d", raw[:6], got, base*300+uint64(ext))
+	}
+	// an extension above 299 encodes no PCR value: what a decoder makes of it is not stated (base*300+ext, saturated, ...);
+	// it still depends on the value bits only
+	flipped := clone(raw[:6])
+	flipped[4] ^= 0x7E
+	if again := gots.ExtractPCR(flipped); again != got {
+		return hx.Failf("pcr-decode-reserved", "ExtractPCR(%x)=%d but %d with the six reserved bits flipped", raw[:6], got, again)
 	}
 	return nil
 }
@@ -280,8 +288,9 @@ func c04EndToEnd(c CaseC04) *hx.Failure {
 		if err != nil {
 			return hx.Failf("e2e-withpes", "option set %d: the packet WithPES produced at a unit start yields no PES header: %v (packet starts %x)", i, err, q[:24])
 		}
-		if ph, err := pes.NewPESHeader(pb); err != nil || !ph.HasPTS() || ph.PTS() != c.PTS {
-			return hx.Failf("e2e-withpes", "option set %d: PTS written by WithPES reads back as %v (err %v), want %d", i, ph, err, c.PTS)
+		// (the helper's header has its own idea of the marker bits: a parser that checks them may refuse it - only a wrong time is a violation)
+		if ph, err := pes.NewPESHeader(pb); err == nil && (!ph.HasPTS() || ph.PTS() != c.PTS) {
+			return hx.Failf("e2e-withpes", "option set %d: PTS written by WithPES reads back as %v, want %d", i, ph, c.PTS)
 		}
 	}
 	return nil
